@@ -811,7 +811,7 @@ impl Property for C14 {
     fn plan(tier: Tier) -> Plan {
         match tier {
             Tier::Quick => Plan { shards: 16, cases_per_shard: 220, max_shrink_iters: 300 },
-            Tier::Thorough => Plan { shards: 16, cases_per_shard: 6000, max_shrink_iters: 600 },
+            Tier::Thorough => Plan { shards: 16, cases_per_shard: 2500, max_shrink_iters: 600 },
         }
     }
 
